@@ -22,7 +22,9 @@
 
 /* ghost snapshots taken at function entry (pinned by the requires clause), used by the loop invariant */
 extern Real ghost_t0;       /* getState().getTime() at entry */
-extern int  ghost_steps0;   /* ghost_steps at entry */
+extern unsigned ghost_steps0;   /* ghost_steps at entry */
+extern Real ghost_adv0;     /* advanced time at entry */
+extern int  ghost_scs0;     /* stepCommunicationStatus at entry */
 
 /* ------------------------------------------------------------------------------------------------------------
    Dependencies by contract
@@ -47,22 +49,22 @@ __CPROVER_assigns(self->tPrev)
 __CPROVER_ensures(self->tPrev == s->t)
 ;
 /* opaque statements: touch only payload outside the view */
-void saveStateDerivsAsPrevious(struct IntegratorRep* self, const struct State* s) __CPROVER_assigns() ;
-void realizeStateDerivatives(struct IntegratorRep* self, const struct State* s) __CPROVER_assigns() ;
-void opaque_autoUpdateDiscreteVariables(struct IntegratorRep* self) __CPROVER_assigns() ;
-void methodReinitialize(struct IntegratorRep* self, int stage, bool shouldTerminate) __CPROVER_assigns() ;
+void saveStateDerivsAsPrevious(struct IntegratorRep* self, const struct State* s) __CPROVER_requires(1) __CPROVER_assigns() __CPROVER_ensures(1) ;
+void realizeStateDerivatives(struct IntegratorRep* self, const struct State* s) __CPROVER_requires(1) __CPROVER_assigns() __CPROVER_ensures(1) ;
+void opaque_autoUpdateDiscreteVariables(struct IntegratorRep* self) __CPROVER_requires(1) __CPROVER_assigns() __CPROVER_ensures(1) ;
+void methodReinitialize(struct IntegratorRep* self, int stage, bool shouldTerminate) __CPROVER_requires(1) __CPROVER_assigns() __CPROVER_ensures(1) ;
 
 /* takeOneStep(tMax,tReport) BY CONTRACT (the main loop of stepTo is cut here). The contract is what check C22 proves on
    the real text of takeOneStep: t1 selection block (unit takeonestep.t1) and event localisation (C22 units); that
    attemptDAEStep leaves the advanced state at t1 is an assumed contract on the step taker. Stated for the non-throwing case. */
 bool takeOneStep(struct IntegratorRep* self, Real tMax, Real tReport)
 __CPROVER_requires(self->tPrev == ADV(self) && tMax > self->tPrev && NN(tReport))
-__CPROVER_assigns(self->advancedState.t, self->interpolatedState.t, self->tLow, self->tHigh, ghost_steps,
+__CPROVER_assigns(self->advancedState.t, self->interpolatedState.t, self->tLow, self->tHigh, ghost_steps, ghost_stepped,
                   self->currentStepSize, self->lastStepSize, self->actualInitialStepSizeTaken)
 __CPROVER_ensures(self->tPrev < ADV(self) && ADV(self) <= tMax)
 __CPROVER_ensures(__CPROVER_return_value ==> (WINDOW_OK(self) && !(self->tLow < tReport && tReport < self->tHigh)))
 __CPROVER_ensures(!__CPROVER_return_value ==> (self->tLow == __CPROVER_old(self->tLow) && self->tHigh == __CPROVER_old(self->tHigh)))
-__CPROVER_ensures(ghost_steps == __CPROVER_old(ghost_steps) + 1)
+__CPROVER_ensures(ghost_steps == __CPROVER_old(ghost_steps) + 1u && ghost_stepped == 1)
 ;
 
 /* ------------------------------------------------------------------------------------------------------------
@@ -71,7 +73,7 @@ __CPROVER_ensures(ghost_steps == __CPROVER_old(ghost_steps) + 1)
 #define STEPTO_ASSIGNS \
   self->startOfContinuousInterval, self->stepCommunicationStatus, self->useInterpolatedState, self->interpolatedState.t, \
   self->advancedState.t, self->tPrev, self->tLow, self->tHigh, self->statsStepsTaken, self->terminationReason, \
-  self->currentStepSize, self->lastStepSize, self->actualInitialStepSizeTaken, ghost_threw, ghost_steps
+  self->currentStepSize, self->lastStepSize, self->actualInitialStepSizeTaken, ghost_threw, ghost_steps, ghost_stepped
 
 #define STEPTO_PRE(self, reportTime, scheduledEventTime) \
   ( CINV(self) && NN(reportTime) && NN(scheduledEventTime) \
@@ -80,21 +82,22 @@ __CPROVER_ensures(ghost_steps == __CPROVER_old(ghost_steps) + 1)
     /* schedule consistency (ASSUMED on the caller, see evidence): a pending scheduled-event time is never moved to before \
        the time the integrator was already allowed to reach */ \
     && scheduledEventTime >= ADV(self) \
-    && ghost_threw == 0 && ghost_t0 == TRET(self) && ghost_steps0 == ghost_steps && ghost_steps0 >= 0 && ghost_steps0 < 1000000 )
+    && ghost_threw == 0 && ghost_stepped == 0 && ghost_t0 == TRET(self) && ghost_steps0 == ghost_steps && ghost_adv0 == ADV(self) && ghost_scs0 == SCS(self) )
 
 /* loop-head invariant of the MAIN STEPPING LOOP (spliced by the extractor at `for(;;)`) */
 #define STEPTO_LINV(self, reportTime, scheduledEventTime, finalTime, internalStepsTaken) \
   ( self->initialized && (!self->startOfContinuousInterval || SCS(self) == FinalTimeHasBeenReturned) && ghost_threw == 0 \
     && SCS(self) >= CompletedInternalStepNoEvent && SCS(self) <= FinalTimeHasBeenReturned \
-    && self->tPrev <= ADV(self) && ADV(self) <= vf_min(scheduledEventTime, finalTime) \
+    && self->tPrev <= ADV(self) && ADV(self) <= scheduledEventTime && ADV(self) <= finalTime \
     && self->tPrev <= reportTime && ghost_t0 <= ADV(self) \
-    && ghost_steps >= ghost_steps0 && internalStepsTaken == ghost_steps - ghost_steps0 \
-    && (SCS(self) == StepHasBeenReturnedNoEvent ==> (!self->useInterpolatedState && ghost_steps == ghost_steps0)) \
-    && (SCS(self) == FinalTimeHasBeenReturned ==> ghost_steps == ghost_steps0) \
+    && (ghost_stepped == 0 || ghost_stepped == 1) && (unsigned)internalStepsTaken == ghost_steps - ghost_steps0 \
+    && (SCS(self) == StepHasBeenReturnedNoEvent ==> (!self->useInterpolatedState && !ghost_stepped && ADV(self) == ghost_t0)) \
+    && (SCS(self) == FinalTimeHasBeenReturned ==> !ghost_stepped) \
+    && (!ghost_stepped ==> (ghost_steps == ghost_steps0 && SCS(self) == ghost_scs0 && ADV(self) == ghost_adv0)) && ADV(self) >= ghost_adv0 \
     && (SCS(self) == StepHasBeenReturnedWithEvent ==> WINDOW_OK(self)) \
     && (SCS(self) == CompletedInternalStepWithEvent ==> \
           (WINDOW_OK(self) && ghost_t0 <= self->tLow \
-           && (ghost_steps > ghost_steps0 ==> !(self->tLow < reportTime && reportTime < self->tHigh)))) )
+           && (ghost_stepped ==> !(self->tLow < reportTime && reportTime < self->tHigh)))) )
 
 #define RV __CPROVER_return_value
 
@@ -137,12 +140,12 @@ __CPROVER_ensures((ghost_threw == 0 && RV != EndOfSimulation) ==> SCS(self) != F
 __CPROVER_ensures((ghost_threw == 0 && RV == ReachedEventTrigger) ==> (TRET(self) == self->tLow && self->tLow < self->tHigh && self->tHigh == ADV(self)
                    && SCS(self) == StepHasBeenReturnedWithEvent && self->tHigh <= scheduledEventTime && self->tHigh <= FINALT(self)
                    && self->tLow < reportTime
-                   && (ghost_steps > ghost_steps0 ==> !(self->tLow < reportTime && reportTime < self->tHigh))))
+                   && (ghost_stepped ==> !(self->tLow < reportTime && reportTime < self->tHigh))))
 /* (8) options: return-every-step and step-limit returns happen only when requested, at the advanced time, after >= limit steps */
 __CPROVER_ensures((ghost_threw == 0 && RV == TimeHasAdvanced) ==> (self->userReturnEveryInternalStep == 1 && TRET(self) == ADV(self) && SCS(self) == StepHasBeenReturnedNoEvent))
-__CPROVER_ensures((ghost_threw == 0 && RV == ReachedStepLimit) ==> (self->userInternalStepLimit > 0 && ghost_steps - ghost_steps0 >= self->userInternalStepLimit && TRET(self) == ADV(self)))
+__CPROVER_ensures((ghost_threw == 0 && RV == ReachedStepLimit) ==> (self->userInternalStepLimit > 0 && ghost_steps - ghost_steps0 >= (unsigned)self->userInternalStepLimit && TRET(self) == ADV(self)))
 /* (9) start of a continuous interval: reported once, nothing moves */
-__CPROVER_ensures((ghost_threw == 0 && RV == StartOfContinuousInterval) ==> (__CPROVER_old(self->startOfContinuousInterval) && ghost_steps == ghost_steps0
+__CPROVER_ensures((ghost_threw == 0 && RV == StartOfContinuousInterval) ==> (__CPROVER_old(self->startOfContinuousInterval) && !ghost_stepped
                    && TRET(self) == ghost_t0 && ADV(self) == __CPROVER_old(self->advancedState.t)))
 __CPROVER_ensures(ghost_threw == 0 ==> !self->startOfContinuousInterval)
 /* (10) status after a return: what the caller (TimeStepper, C22) relies on before calling reinitialize() */
@@ -169,9 +172,9 @@ __CPROVER_requires(STEPTO_PRE(self, reportTime, scheduledEventTime))
 __CPROVER_requires(!self->startOfContinuousInterval && (SCS(self) == CompletedInternalStepWithEvent || SCS(self) == StepHasBeenReturnedWithEvent))
 __CPROVER_assigns(STEPTO_ASSIGNS)
 /* "no report ... time ever lies strictly inside a reported event window": the window is reported now, the pending report time is inside */
-__CPROVER_ensures((ghost_threw == 0 && RV == ReachedEventTrigger && ghost_steps == ghost_steps0) ==> !(self->tLow < reportTime && reportTime < self->tHigh))
+__CPROVER_ensures((ghost_threw == 0 && RV == ReachedEventTrigger && !ghost_stepped) ==> !(self->tLow < reportTime && reportTime < self->tHigh))
 /* ... the window was reported by the previous call, and now a state strictly inside it is returned as a report */
-__CPROVER_ensures((ghost_threw == 0 && RV == ReachedReportTime && ghost_steps == ghost_steps0 && __CPROVER_old(self->stepCommunicationStatus) == StepHasBeenReturnedWithEvent)
+__CPROVER_ensures((ghost_threw == 0 && RV == ReachedReportTime && !ghost_stepped && __CPROVER_old(self->stepCommunicationStatus) == StepHasBeenReturnedWithEvent)
                   ==> !(__CPROVER_old(self->tLow) < TRET(self) && TRET(self) < __CPROVER_old(self->tHigh)))
 ;
 
